@@ -87,6 +87,20 @@ def _judge(ctx, v, code, seen_types):
                 last.end_pos, nl), w, next_value=getattr(nl, 'value', None), next_col=nl.start_pos[1] if nl else None,
                 stmt_col=n.start_pos[1], virtual_between=virt,
                 next_prefix_has_newline=bool(nl is not None and ('\n' in nl.prefix or '\r' in nl.prefix)))
+    # the tree a client holds must stay an instance of the grammar while it is being read: every public accessor (with its option
+    # variants) is called on every third tree and the tree compared with what it was
+    if not bad and ctx.counters['evaluations'] % 3 == 0 and len(code) < 20000:
+        from ..oracles import readonly
+        from ..oracles.common import sig_diff, tree_sig
+        try:
+            before = tree_sig(m)
+            ctx.count('read_only_calls', readonly.exercise(m))
+            ctx.count('trees_read_through_the_whole_api')
+            d = sig_diff(before, tree_sig(m))
+            if d or m.get_code() != code:
+                ctx.violation('read_only_api_modified_tree', 'after calling the read-only accessors the tree differs: %s' % (d or 'get_code()',), w)
+        except RecursionError:
+            ctx.count('recursion_error_skipped')
     if nt:
         ctx.nontriv(v + '\0' + code)
     if nt and len(code) < 60:
@@ -113,4 +127,4 @@ def shards(tier, seed):
 
 
 def floors(tier):
-    return {'evaluations': 3000, 'nodes_checked': 100000, 'error_nodes': 2000, 'set:node_types': 70}
+    return {'evaluations': 3000, 'nodes_checked': 100000, 'error_nodes': 2000, 'trees_read_through_the_whole_api': 3000, 'set:node_types': 70}
